@@ -74,6 +74,18 @@ HISTORY = {
     "C17-3": ("missed (round 2)", "C17 aead-siblings/imeta-values-verbatim"),
     "C19-3": ("missed (round 2)", "C19 snapshot-one-instant counts acquisitions through callees and anchors on the function building the snapshot"),
     "C19-4": ("caught by C20 only (round 2)", "C19 one-critical-section/manager/<fn> (a manager function takes the mutex once)"),
+    "C01-5": ("caught by C02/C10 only (round 3)", ""),
+    "C01-6": ("caught by C07 only (round 3)", ""),
+    "C02-5": ("caught (round 3)", ""),
+    "C02-6": ("missed (round 3)", "C02 config-inventory/call-sites-agree (all sites of one dependency call wire the same MdkConfig fields to the same positions)"),
+    "C03-5": ("caught (round 3)", ""),
+    "C04-5": ("caught by C02 only (round 3)", "C04 id-verified/hashed-field/* (the wiring clause for the fields the id is the hash of)"),
+    "C05-5": ("caught (round 3)", ""),
+    "C05-6": ("caught by C15 only (round 3)", ""),
+    "C06-5": ("missed (round 3)", "C06 no-panic: a constant index k is discharged only if the dominating conditions guarantee len > k"),
+    "C07-5": ("missed (round 3)", "C01/C07 wrong-epoch-source; analysis.arm_only no longer treats an or-pattern arm shared with a disallowed variant as allowed"),
+    "C08-5": ("caught by C16 only (round 3)", ""),
+    "C09-5": ("missed (round 3)", "C09 sql-scope/*/key-representation (OpenMLS tables bound to the MlsCodec-serialised id, MDK tables to the raw id)"),
     "C19-2": ("caught by C09/C12 only", "C19 one-critical-section: only the group-existence pre-check is exempt on SQLite"),
 }
 rows = ["| id | change (needs) | first | now caught by | strengthened |", "|----|----------------|-------|---------------|--------------|"]
